@@ -41,7 +41,7 @@ CLAIMS = {
     },
     "C05": {
         "category": "exploration",
-        "technique": "crash/panic channel monitor (catch_unwind + panic hook + child-process death + watchdog) over hostile workloads, on debug and release builds in full and an ASan slice",
+        "technique": "crash/panic channel monitor (catch_unwind + panic hook + child-process death + watchdog) over hostile workloads, on debug and release builds in full and an ASan slice; thorough tier adds a libFuzzer (ASan, coverage-guided) slot whose artifacts and final corpus are replayed in the driver",
         "text": "Texts from a typed grammar generator, mutations of every string literal of the repository's FEEL tests and every <text> of the shipped models (harvested from the working tree at run time), every ordered pair of lexical tokens in several surroundings (and every pair after for/some/every), arbitrary Unicode, nesting to depth 200, iteration products below 4096, and every built-in x arities 0..6 (positional and named) plus every operator, property and filter over an extreme argument alphabet (2^63, 2^64-1, 10^+-3000, decimal128 edges, NUL and astral strings, huge lists, DST-gap and out-of-range temporals, maximal durations) are parsed through all six parser entry points + parse_name / parse_longest_name in three scopes and evaluated; any panic, process death, sanitizer report or failure to finish is a violation. Quick ~1.1 M executions, thorough tens of millions.",
         "note": "Termination is decided as bounded progress (a stalled case is re-run alone with a 300 s budget). Mutated texts whose iteration ranges exceed the property's size bound are left out. A returned error or null is never a violation.",
         "design_ref": "DESIGN.md §3 C05",
@@ -93,7 +93,7 @@ CLAIMS["C16"] = {
 }
 CLAIMS["C19"] = {
     "category": "exploration",
-    "technique": "generated Unicode drawings with a field-by-field reference comparison; differential against the DMN XML twin; single-character text corruption for totality; dbg, rel and ASan builds",
+    "technique": "generated Unicode drawings with a field-by-field reference comparison; differential against the DMN XML twin; single-character text corruption (thorough: plus a libFuzzer slot) for totality; dbg, rel and ASan builds",
     "text": "Abstract tables (1..5 inputs, 1..3 outputs, 0..2 annotations, 1..8 rules, all 11 markers, both orientations, all optional-part combinations, multi-line and merged cells) are drawn by an independent renderer (validated each run by re-drawing the 70 shipped examples), recognised by the real dmntk_recognizer::build and compared field by field with what was drawn; each recognised table is evaluated and compared with its DMN-XML twin on inputs steered to match no, one and several rules; 114k (quick) / 2.2M (thorough) corruptions per build plus arbitrary texts must be recognised or rejected without panic, abort or hang on debug, release and a 10 % ASan slice, and debug and release must agree on accept vs reject.",
     "note": "Crosstab drawings are not generated (unimplemented in the recognizer); default output entries cannot be drawn; evaluator semantics shared by the text path and the XML twin are C03's subject. G-DRAW (lib/gdraw.py) is trusted as far as its self-validation on the shipped examples goes.",
     "design_ref": "DESIGN.md §3 C19",
@@ -110,7 +110,7 @@ CLAIMS["C15"] = {
     "category": "exploration",
     "technique": "reference-model monitor: integer proleptic-Gregorian calendar and UTC-line instants (zoneinfo on both the system and the bundled tz database) against the real constructor, literal and FEEL evaluator; exhaustive in-driver calendar sweep",
     "text": "Exhaustive in both tiers: every (y,m,d), y in -1..2400, m in 0..13, d in 0..32 (1,109,724 cells) through date(y,m,d) (tuple constructor and built-in) and through the literal, weekday of all 877,313 valid dates, order of consecutive dates. Seeded: out-of-range components of date(y,m,d); date triples up to year +-999999999 under <,<=,>,>=,=,!=,between,in,unary tests and the properties; date-time triples with offsets and named zones under =,!=,unary tests,between,4 interval forms, subtraction both ways and all properties; time properties; whole months between dates; duration triples (add, negate, =, order, components).",
-    "note": "Named zones decided only for instants in 1980-2019 whose offset is constant +-48 h in the system tz database and in chrono-tz's bundled 2022a. Date-times ordered through between/in/unary tests only (the evaluator has no < for them). Undecided: year 0000 literal, end-of-month clipping in whole-months, hostile operands (only panics count).",
+    "note": "Named zones decided for instants in 1980-2019 on which the system tz database and chrono-tz's bundled 2022a agree and whose local time is unambiguous in both (30% of the zoned groups lie within 16 h of a transition). Date-times ordered through between/in/unary tests only (the evaluator has no < for them). Undecided: year 0000 literal, end-of-month clipping in whole-months, hostile operands (only panics count).",
     "design_ref": "DESIGN.md §3 C15",
 }
 CLAIMS["C17"] = {
@@ -130,7 +130,7 @@ CLAIMS["C18"] = {
 
 CLAIMS["C12"] = {
     "category": "fault_enumeration",
-    "technique": "exhaustive single-fault injection over model texts (span-level XML mutator) + sampled fault pairs + character-level corruption, observed through the panic / crash / hang channel of the real loader and evaluator on dbg, rel and an ASan slice",
+    "technique": "exhaustive single-fault injection over model texts (span-level XML mutator) + sampled fault pairs + character-level corruption, observed through the panic / crash / hang channel of the real loader and evaluator (thorough tier: plus documents from a libFuzzer slot seeded with the shipped models) on dbg, rel and an ASan slice",
     "text": "For each .dmn file shipped under /repo/examples (149, found at run time) and 15 generated DMN 1.3 models, every single structural fault at every position (element: delete / duplicate / empty / swap / delete-all-same-named; attribute: delete / empty / garble; text: empty / garbage / broken FEEL; href: missing id, own DRG element, every transitive requirer, XML ancestor, element of another kind; typeRef: missing, other simple type, own / ancestor / referencing item definition) - 177k faults in 1140 fault-kind x element-kind classes - is applied to the text and pushed through dmntk_model::parse -> ModelEvaluator::new -> evaluate_invocable(every invocable x 5 input contexts incl. wrongly typed ones) on an 8 MiB stack; plus sampled / designed fault pairs, seeded character corruptions and truncations and 21 hostile documents. Thorough runs all single faults on dbg, 20% on rel, 10% under ASan; quick a stride sample of ~7k covering every class. Any panic, process death, confirmed hang (re-run alone, 300 s) or poisoned lock is a violation.",
     "note": "Oracle is the channel only (values / nulls / errors are never judged). Pairs are sampled, corruption is seeded random. Crash signatures are fault kind x element (pairs attributed to the single fault that suffices, else to the cycle they build); panic signatures carry a hash of the source line at the panic location. Mutants of the shipped N_0088.dmn, which crashes unmodified, inherit its signature.",
     "design_ref": "DESIGN.md §3 C12",
@@ -145,7 +145,7 @@ CLAIMS["C10"] = {
 }
 CLAIMS["C13"] = {
     "category": "exploration",
-    "technique": "runtime invariant monitors next to the observed state (scope snapshot before / after parse and evaluate, input-context snapshot around evaluate_invocable) + history checker over repeated interleaved evaluations",
+    "technique": "runtime invariant monitors next to the observed state (scope snapshot before / after parse and evaluate, around decision-table evaluators, input-context snapshot around evaluate_invocable) + history checker over repeated interleaved evaluations",
     "text": "Expressions forced through the constructs that push temporary contexts (context literals, filters, for / some / every, invocations, unary tests, paths) are parsed and evaluated 3x in scopes of 1-4 layers while the driver renders the scope before the parse, after it and after every evaluation; successful parses through all six entry points are checked the same way; histories of 200-2000 steps evaluate 8 prepared evaluators over 4 long-lived scopes in random order and compare every observation with the first one of the same pair and the scope with its initial rendering; generated DMN models (boxed contexts, invocations, BKMs, services, tables) have every (invocable, input) pair called 3x interleaved in random order with the input context rendered before and after.",
     "note": "The scope's Display rendering is taken as a faithful witness of its contents; values depending on the current date are not generated.",
     "design_ref": "DESIGN.md §3 C13",
@@ -153,7 +153,7 @@ CLAIMS["C13"] = {
 
 CLAIMS["C20"] = {
     "category": "exploration",
-    "technique": "concurrency stress with hook-injected delays and a rendezvous monitor, logical-clock event log checked against sequential expectations, lock-poison probe, cross-talk tags; ThreadSanitizer build with the decNumber C sources instrumented",
+    "technique": "concurrency stress (free phase with hook-injected delays, hammer phase on one invocable with few identical inputs, rendezvous monitor), logical-clock event log checked against sequential expectations, lock-poison probe, cross-talk tags; ThreadSanitizer build with the decNumber C sources instrumented",
     "text": "One Arc<ModelEvaluator> per model (regular-expression, numeric and temporal-with-zones decisions, a boxed context using a knowledge model, a decision service; generated graphs with nested decisions, BKM chains, tables and services) is shared by 2, 3, 4, 8 and 16 threads released by a start barrier, each running a seeded permutation of 60-400 calls while the model-evaluator verification hook injects seeded yields / spins / sleeps after the read guards are taken; every call is logged against one logical clock and its result compared with the sequential result of the same (invocable, input); each repetition ends with rendezvous rounds in which the hook holds K = thread-count evaluations inside the evaluator simultaneously (impossible if any write lock were taken on the path), then the nine locks are probed for poison and the hook payloads for another call's tag. The same workload runs on a ThreadSanitizer build (std rebuilt, C sources instrumented); reports with dmntk or decNumber frames are violations. Quick 40 repetitions (~45k call events, ~280k overlapping pairs, concurrency up to 16), thorough 1500.",
     "note": "Only the interleavings that occurred are covered. Termination is bounded progress (gate 20 s, repetition 180 s, re-run alone 300 s). If the TSan build is unavailable the check says so and decides on the dbg build only.",
     "design_ref": "DESIGN.md §3 C20",
